@@ -1,4 +1,7 @@
 //! Canonical one-line text of a decoded frame. The Lean driver prints the same text from the model.
+//! Every match over one of the repository's enums ends in a catch-all arm, so that a change which *adds* a variant still
+//! compiles here and is then found as a difference in the output rather than as a harness that no longer builds.
+#![allow(unreachable_patterns)]
 use adsb_deku::adsb::*;
 use adsb_deku::bds::*;
 use adsb_deku::*;
@@ -28,6 +31,7 @@ pub fn cap(c: &Capability) -> String {
         Capability::AG_AIRBORNE => "5:0".into(),
         Capability::AG_UNCERTAIN2 => "6:0".into(),
         Capability::AG_UNCERTAIN3 => "7:0".into(),
+        other => format!("?{other:?}"),
     }
 }
 fn dr(d: &DownlinkRequest) -> String {
@@ -37,6 +41,7 @@ fn dr(d: &DownlinkRequest) -> String {
         DownlinkRequest::CommBBroadcastMsg1 => "4".into(),
         DownlinkRequest::CommBBroadcastMsg2 => "5".into(),
         DownlinkRequest::Unknown(v) => format!("U{v}"),
+        other => format!("?{other:?}"),
     }
 }
 fn um(u: &UtilityMessage) -> String { format!("{}:{}", u.iis, u.ids as u8) }
@@ -51,7 +56,7 @@ fn om(o: &OperationalMode) -> String {
         b2n(&dbg_field(&d, "reserved_recv_atc_service")), b2n(&dbg_field(&d, "single_antenna_flag")),
         b2n(&dbg_field(&d, "system_design_assurance")))
 }
-fn version(v: &ADSBVersion) -> u8 { v.deku_id().unwrap() }
+fn version(v: &ADSBVersion) -> u8 { v.deku_id().unwrap_or(99) }
 pub fn me(m: &ME) -> String {
     match m {
         ME::AirbornePositionBaroAltitude(a) => format!("AirPosBaro {}", alt(a)),
@@ -62,6 +67,7 @@ pub fn me(m: &ME) -> String {
                 AirborneVelocitySubType::Reserved1(r) => format!("R1 {r}"),
                 AirborneVelocitySubType::GroundSpeedDecoding(g) => format!("GS {} {} {} {}", g.ew_sign as u8, g.ew_vel, g.ns_sign as u8, g.ns_vel),
                 AirborneVelocitySubType::AirspeedDecoding(a) => format!("AS {} {} {} {}", a.status_heading, a.mag_heading, a.airspeed_type, a.airspeed),
+                other => format!("?{other:?}"),
             };
             format!("Velocity st={} nacv={} sub=[{}] src={} sgn={} vr={} rsv={} gs={} gd={}", v.st, v.nac_v, sub,
                 v.vrate_src as u8, v.vrate_sign as u8, v.vrate_value, v.reverved, v.gnss_sign as u8, v.gnss_baro_diff)
@@ -74,7 +80,7 @@ pub fn me(m: &ME) -> String {
         ME::AircraftIdentification(i) => format!("Ident tc={} ca={} cn=\"{}\"", i.tc as u8, i.ca, i.cn),
         ME::SurfacePosition(s) => format!("Surface mov={} s={} trk={} t={} f={} lat={} lon={}", s.mov, s.s as u8, s.trk, s.t as u8, s.f as u8, s.lat_cpr, s.lon_cpr),
         ME::AircraftStatus(s) => {
-            let st = match s.sub_type { AircraftStatusType::NoInformation => 0, AircraftStatusType::EmergencyPriorityStatus => 1, AircraftStatusType::ACASRaBroadcast => 2, AircraftStatusType::Reserved => 3 };
+            let st = match s.sub_type { AircraftStatusType::NoInformation => 0, AircraftStatusType::EmergencyPriorityStatus => 1, AircraftStatusType::ACASRaBroadcast => 2, AircraftStatusType::Reserved => 3, _ => 99 };
             format!("Status st={} em={} sq={:04x}", st, s.emergency_state as u8, s.squawk)
         }
         ME::TargetStateAndStatusInformation(t) => format!(
@@ -96,6 +102,7 @@ pub fn me(m: &ME) -> String {
                 a.barometric_altitude_integrity, a.horizontal_reference_direction, a.sil_supplement)
         }
         ME::AircraftOperationStatus(OperationStatus::Reserved(v, d)) => format!("OpRes v={} d={}", v, hexb(d)),
+        other => format!("?{other:?}"),
     }
 }
 pub fn bds(b: &BDS) -> String {
@@ -110,13 +117,14 @@ pub fn bds(b: &BDS) -> String {
             c.reserved_acas, c.bit_array),
         BDS::AircraftIdentification(s) => format!("Ident cn=\"{s}\""),
         BDS::Unknown((i, d)) => format!("Unknown id={:02x} d={}", i, hexb(d)),
+        other => format!("?{other:?}"),
     }
 }
 fn cf_type(cf: &ControlField) -> u8 {
     let d = format!("{cf:?}");
     match dbg_field(&d, "t").as_str() {
         "ADSB_ES_NT" => 0, "ADSB_ES_NT_ALT" => 1, "TISB_FINE" => 2, "TISB_COARSE" => 3, "TISB_MANAGE" => 4,
-        "TISB_ADSB_RELAY" => 5, "TISB_ADSB" => 6, "Reserved" => 7, x => panic!("cf type {x}"),
+        "TISB_ADSB_RELAY" => 5, "TISB_ADSB" => 6, "Reserved" => 7, _ => 99,
     }
 }
 pub fn frame(f: &Frame) -> String {
@@ -140,6 +148,7 @@ pub fn frame(f: &Frame) -> String {
             format!("DF21 fs={} dr={} um={} id={:04x} bds={{{}}} ap={}", *fs as u8, dr(d), um(u), id, bds(b), hex3(parity)),
         DF::ModeSExtendedSquitter { df, capability, icao, type_code, adsb_data, parity } =>
             format!("DF24+ df={df} ca={} aa={} tc={type_code} data={adsb_data} ap={}", cap(capability), hex3(icao), hex3(parity)),
+        other => format!("?{other:?}"),
     };
     format!("OK {body} crc={crc:06x}")
 }
